@@ -27,10 +27,12 @@ manifest = {
     "engines": [
         {"name": "vcheck", "path": "harness/vcheck", "serves_properties": sorted(CHECKS),
          "kind_free_text": "Rust binary; proptest-driven generators with custom shrink-and-continue runner, reference CQL codec (vkit::wire), in-process mock cluster; JSON replay files"},
+        {"name": "vfuzz", "path": "harness/fuzz", "serves_properties": ["C01", "C08"],
+         "kind_free_text": "cargo-fuzz crate (nightly, libFuzzer + ASan): targets c08_decode and c01_cell call the same oracles; run by the thorough tier through tools/fuzz_tier.sh with a time budget, artifacts replayed natively before being reported"},
     ],
     "checks": [],
     "not_applicable": [],
-    "notes": "Every check: ./check <ID> quick|thorough ; replay with ./check <ID> --replay <file>. Exit 0 held / 1 VIOLATION / 2 infrastructure. VERIF_SEED selects the PRNG stream.",
+    "notes": "Every check: ./check <ID> quick|thorough ; replay with ./check <ID> --replay <file>. Exit 0 held / 1 VIOLATION / 2 infrastructure. VERIF_SEED selects the PRNG stream. Sensitivity of every check was measured with hand-written mutants (mutants/, tools/run_mutants.py) and with 60 changes seeded by sub-agents that saw only the property text (seeded/, DESIGN.md 6.2).",
 }
 for i in ids:
     if i in CHECKS:
